@@ -123,8 +123,38 @@ func c06ColonPassword(r *rand.Rand) string {
 	}
 }
 
-func c06HashPassword(r *rand.Rand, pw string) string {
-	switch r.Intn(3) {
+// white space (strings.TrimSpace / unicode.IsSpace sense), ASCII and Unicode: a character of a password like any other
+var c06Spaces = []string{" ", "\t", "\n", "\r", "\r\n", "\u00a0", "\u0085", "\u3000", "  ", "\v", "\f", "\u2003", "\u2028", " \t", "\u00a0 "}
+
+// white space that can end a user name in an htpasswd file / a custom-data entry (no line breaks)
+var c06NameSpaces = []string{" ", "\t", "\u00a0", "\u3000", "  "}
+
+var c06Cutset = strings.Join(c06Spaces, "")
+
+func c06Space(r *rand.Rand) string { return c06Spaces[r.Intn(len(c06Spaces))] }
+
+// c06Pad adds white space before and/or after s: after (1/2), before (1/4), both (1/4)
+func c06Pad(r *rand.Rand, s string) string {
+	switch r.Intn(4) {
+	case 0:
+		return c06Space(r) + s
+	case 1:
+		return c06Space(r) + s + c06Space(r)
+	}
+	return s + c06Space(r)
+}
+
+// a password that begins and/or ends with white space
+func c06BlankPassword(r *rand.Rand) string { return c06Pad(r, c06Password(r)) }
+
+// c06HashPassword: the htpasswd entry of a password; hashedOnly: never the plain scheme (go-htpasswd trims the
+// lines it reads, so a plain entry cannot express white space at the end of a password)
+func c06HashPassword(r *rand.Rand, pw string, hashedOnly ...bool) string {
+	n := 3
+	if len(hashedOnly) > 0 && hashedOnly[0] {
+		n = 2
+	}
+	switch r.Intn(n) {
 	case 0:
 		h, err := bcrypt.GenerateFromPassword([]byte(pw), bcrypt.MinCost)
 		if err != nil {
@@ -170,6 +200,7 @@ type c06World struct {
 	unknownID  string
 	uPlain     c06User
 	uColon     c06User
+	uBlank     c06User // password begins and/or ends with white space; the name may end with white space
 	unknownU   string
 	dir        string
 	otherLine  string
@@ -251,8 +282,31 @@ func c06NewWorld(cfg vx.M, rep int) *c06World {
 	w.otherLine = "someoneelse:" + c06HashPassword(r, "pw"+c06Str(r, c06Letters, 3, 6))
 	w.users = map[string]string{}
 
+	// ... and a third one whose passwords begin and/or end with white space (hashed entries: the library trims the
+	// lines it reads) and whose name - in half of the worlds - ends with white space
+	for {
+		n := c06Str(r, c06NameRunes, 1, 10)
+		if n == w.uPlain.name || n == w.uColon.name || n == w.unknownU || "u"+n == w.uPlain.name || "u"+n == w.uColon.name {
+			continue
+		}
+		if strings.HasPrefix(n, "#") {
+			n = "u" + n
+		}
+		if r.Intn(2) == 0 {
+			n += c06NameSpaces[r.Intn(len(c06NameSpaces))]
+		}
+		w.uBlank = c06User{name: n, pw: [2]string{c06BlankPassword(r), c06BlankPassword(r)}}
+		break
+	}
+	if w.uBlank.pw[1] == w.uBlank.pw[0] {
+		w.uBlank.pw[1] = "2" + w.uBlank.pw[1]
+	}
+	for i := range w.uBlank.pw {
+		w.uBlank.line[i] = w.uBlank.name + ":" + c06HashPassword(r, w.uBlank.pw[i], true)
+	}
+
 	w.build(cfg, vx.M{"jsec": "k0", "aks": map[string]interface{}{"id0": "v1", "id1": "v1"}},
-		vx.M{"uPlain": "v1", "uColon": "v1"}, r)
+		vx.M{"uPlain": "v1", "uColon": "v1", "uBlank": "v1"}, r)
 	return w
 }
 
@@ -262,7 +316,7 @@ func (w *c06World) lines(table vx.M, bare bool) []string {
 	for _, u := range []struct {
 		key string
 		u   c06User
-	}{{"uPlain", w.uPlain}, {"uColon", w.uColon}} {
+	}{{"uPlain", w.uPlain}, {"uColon", w.uColon}, {"uBlank", w.uBlank}} {
 		switch vx.Str(table[u.key]) {
 		case "v1":
 			lines = append(lines, u.u.line[0])
@@ -414,13 +468,20 @@ func (w *c06World) build(cfg, mat, users vx.M, r *rand.Rand) {
 			w.buildErr = err.Error()
 		}
 	}
-	for _, k := range []string{"uPlain", "uColon"} {
+	for _, k := range c06KnownUsers {
 		w.users[k] = vx.Str(users[k])
 	}
 }
 
+var c06KnownUsers = []string{"uPlain", "uColon", "uBlank"}
+
 func (w *c06World) sameUsers(users vx.M) bool {
-	return vx.Str(users["uPlain"]) == w.users["uPlain"] && vx.Str(users["uColon"]) == w.users["uColon"]
+	for _, k := range c06KnownUsers {
+		if vx.Str(users[k]) != w.users[k] {
+			return false
+		}
+	}
+	return true
 }
 
 func (w *c06World) closeFilter() {
@@ -452,7 +513,7 @@ func c06Kvs(lines []string) map[string]string {
 // the first one has been applied.
 func (w *c06World) sync(table vx.M, r *rand.Rand) error {
 	lines := w.lines(table, true)
-	for _, k := range []string{"uPlain", "uColon"} {
+	for _, k := range c06KnownUsers {
 		w.users[k] = vx.Str(table[k])
 	}
 	if len(lines) > 0 && r.Intn(2) == 0 { // all users deleted: the snapshot is the empty map
@@ -927,6 +988,8 @@ func c06Concretise(w *c06World, areq vx.M, rep int) *c06Case {
 			uu = w.uPlain
 		case "uColon":
 			uu = w.uColon
+		case "uBlank":
+			uu = w.uBlank
 		default:
 			uu = c06User{name: w.unknownU, pw: w.uPlain.pw}
 		}
@@ -966,6 +1029,36 @@ func c06Concretise(w *c06World, areq vx.M, rep int) *c06Case {
 			pw = u.pw[:strings.IndexByte(u.pw, ':')]
 		case "empty":
 			pw = ""
+		case "padded": // white space before and/or after the right password: another password
+			pw = c06Pad(rm, u.pw)
+			c.note = append(c.note, fmt.Sprintf("password %q presented as %q", u.pw, pw))
+		case "userPadded": // white space before and/or after the user name: not the name of a configured user
+			name := c06Pad(rm, u.name)
+			for name == w.uPlain.name || name == w.uColon.name || name == w.uBlank.name {
+				name += " "
+			}
+			c.note = append(c.note, fmt.Sprintf("user name %q presented as %q", u.name, name))
+			creds = name + ":" + pw
+		case "trimmed": // (some of) the white space at the ends of the configured password / user name left out
+			switch k := rm.Intn(4); {
+			case k == 0 && strings.TrimLeft(u.pw, c06Cutset) != u.pw:
+				pw = strings.TrimLeft(u.pw, c06Cutset)
+			case k == 1 && strings.TrimRight(u.pw, c06Cutset) != u.pw:
+				pw = strings.TrimRight(u.pw, c06Cutset)
+			default:
+				pw = strings.TrimSpace(u.pw)
+			}
+			name := u.name
+			if k := rm.Intn(3); k == 0 {
+				name = strings.TrimSpace(u.name)
+			} else if k == 1 && strings.TrimSpace(u.name) != u.name { // only the name differs
+				name, pw = strings.TrimSpace(u.name), u.pw
+			}
+			if name == u.name && pw == u.pw {
+				panic("c06: trimmed credentials of a user without white space")
+			}
+			c.note = append(c.note, fmt.Sprintf("credentials %q presented as %q", u.name+":"+u.pw, name+":"+pw))
+			creds = name + ":" + pw
 		case "nocolon":
 			creds = u.name
 			if rm.Intn(2) == 0 {
@@ -1185,7 +1278,7 @@ func TestVerifC06Replay(t *testing.T) {
 					ln := emit(vx.M{"ev": "present", "req": areq, "res": res})
 					sum := sha256.Sum256(c.body)
 					out.Raw(vx.M{"k": "case", "line": ln, "beh": bi, "step": si + 1, "rep": rep, "cfg": w.cfg, "mat": w.mat, "gen": w.gen,
-						"history": w.history, "now": w.now, "users": map[string]string{"uPlain": w.users["uPlain"], "uColon": w.users["uColon"]},
+						"history": w.history, "now": w.now, "users": map[string]string{"uPlain": w.users["uPlain"], "uColon": w.users["uColon"], "uBlank": w.users["uBlank"]},
 						"req": areq, "exp": st["exp"], "v": st["v"], "impl": st["impl"], "res": res, "tag": obs.tag, "panic": obs.panicV,
 						"result": obs.result, "wire": wire, "bodyLen": len(c.body), "bodySha": hex.EncodeToString(sum[:6]),
 						"chunked": chunked && len(c.body) > 0, "mutations": c.note})
